@@ -338,8 +338,11 @@ vf::Outcome run_case(const Case& c, const vf::Options&)
 {
    vf::Outcome out;
    if (c.flavor == 0) {
-      Owning tree;
-      exercise(c, out, tree, nullptr);
+      // a tree that failed its invariants is not handed to its destructor (walking a corrupt tree would end the process
+      // before the finding is reported); it is deliberately left allocated
+      auto* tree = new Owning;
+      exercise(c, out, *tree, nullptr);
+      if (out.findings.empty()) delete tree;
    }
    else {
       std::deque<INode> store;
